@@ -2595,6 +2595,234 @@ def _stream_refs_stateful(ctx, w):
 
 
 # ------------------------------------------------------------------------------------------------
+# damaged multi-pack-index, seen through the STORE (core.multiPackIndex on): reads and delta resolution of thin packs
+
+_MIDX_T: dict = {}
+
+
+def _midx_objects():
+    """two packs of four 51-byte blobs each, stored uncompressed: every entry is 64 bytes long, so the offsets are
+    12, 76, 140, 204 — several pairs differ in a single bit, and all objects have EQUAL length (a redirected offset
+    still yields an object a delta applies to)"""
+    A = [(b"A%d " % i) * 12 + b"end" for i in range(4)]
+    B = [(b"B%d " % i) * 12 + b"end" for i in range(4)]
+    assert all(len(x) == 51 for x in A + B)
+    return A, B
+
+
+def _midx_template(scratch: str):
+    import tempfile
+    import warnings
+    warnings.simplefilter("ignore")
+    from dulwich.object_store import DiskObjectStore
+    if _MIDX_T.get("scratch") == scratch and os.path.exists(_MIDX_T.get("root", "/nonexistent")):
+        return _MIDX_T
+    root = tempfile.mkdtemp(prefix="midx", dir=scratch)
+    st = DiskObjectStore.init(os.path.join(root, "objects"))
+    A, B = _midx_objects()
+    for blobs in (A, B):
+        pk = build_pack("m", [("full", 3, b) for b in blobs], level=0)
+        assert pk.offsets == [12, 76, 140, 204], pk.offsets
+        _do_ingest(st, "addpack", pk.data)
+    st.write_midx()
+    st.close()
+    path = os.path.join(root, "objects", "pack", "multi-pack-index")
+    _MIDX_T.clear()
+    _MIDX_T.update({"scratch": scratch, "root": root, "path": path, "midx": open(path, "rb").read(),
+                    "names": [obj_name(3, b).hex() for b in A + B]})
+    return _MIDX_T
+
+
+def impl_midx_template(a):
+    tm = _midx_template(a["scratch"])
+    return {"midx": hx(tm["midx"]), "names": tm["names"]}
+
+
+def _all_packs_consistent(objects_dir: str, bad: list):
+    for f in sorted(os.listdir(os.path.join(objects_dir, "pack"))):
+        if f.endswith(".idx"):
+            _check_new_pack(os.path.join(objects_dir, "pack", f[:-4]), bad)
+
+
+def impl_midx_batch(a):
+    """each mutant of the multi-pack-index: store-level reads of every object, then (ingest=true) thin packs whose REF_DELTA bases
+    live in the packs the MIDX covers, through every ingestion path; afterwards every entry of every pack must hash to its name"""
+    import shutil
+    import warnings
+    warnings.simplefilter("ignore")
+    from dulwich.object_format import SHA1
+    from dulwich.object_store import DiskObjectStore
+    from dulwich.pack import PackData
+    import io
+    tm = _midx_template(a["scratch"])
+    A, B = _midx_objects()
+    names = tm["names"]
+    bases = [A[1], B[2], A[3]]
+    targets = [b[:20] + b"XYZ" + b[23:] for b in bases]          # same length, copy-insert-copy deltas
+    thin = build_pack("t", [("ref", ("ext", i), targets[i]) for i in range(len(bases))], ext=[(3, b) for b in bases]).data
+    out = []
+    try:
+        for m in a["mutants"]:
+            rep = {"reads": [], "bad": []}
+            with open(tm["path"], "wb") as f:
+                f.write(unhx(m["midx"]))
+            st = DiskObjectStore(os.path.join(tm["root"], "objects"))
+            try:
+                for n in names:
+                    nb = n.encode()
+                    for what in ("get_raw", "getitem", "contains", "contains_packed"):
+                        try:
+                            if what == "get_raw":
+                                ty, raw = st.get_raw(nb)
+                                got = hashlib.sha1(TYPE_NAMES.get(ty, b"?") + b" " + str(len(raw)).encode() + b"\0" + raw).hexdigest()
+                                if got != n:
+                                    rep["bad"].append(f"get_raw({n[:12]}) returned an object hashing to {got[:12]}")
+                                r = "ok"
+                            elif what == "getitem":
+                                o = st[nb]
+                                if _independent_id(o) != n:
+                                    rep["bad"].append(f"store[{n[:12]}] returned an object hashing to {_independent_id(o)[:12]}")
+                                r = "ok"
+                            elif what == "contains":
+                                r = "in" if nb in st else "not-in"
+                            else:
+                                r = "in" if st.contains_packed(nb) else "not-in"
+                        except KeyError:
+                            r = "KeyError"
+                        except Exception as e:
+                            r = type(e).__name__
+                        rep["reads"].append(r)
+                try:
+                    ids = sorted(set(st))
+                    if sorted(x.decode() for x in ids) != sorted(names):
+                        rep["reads"].append(f"iter:{len(ids)}")
+                    else:
+                        rep["reads"].append("iter:all")
+                except Exception as e:
+                    rep["reads"].append("iter:" + type(e).__name__)
+            finally:
+                st.close()
+            if m.get("ingest"):
+                for path in ("thin", "addpack", "packdata"):
+                    work = tm["root"] + "-work"
+                    shutil.rmtree(work, ignore_errors=True)
+                    shutil.copytree(tm["root"], work)
+                    st = DiskObjectStore(os.path.join(work, "objects"))
+                    try:
+                        try:
+                            _do_ingest(st, path, thin)
+                            res = "ok"
+                        except Exception as e:
+                            res = "err " + type(e).__name__
+                        except BaseException as e:
+                            if isinstance(e, KeyboardInterrupt):
+                                raise
+                            res = "base " + type(e).__name__
+                        rep.setdefault("ingest", {})[path] = res
+                        bad: list = []
+                        _all_packs_consistent(os.path.join(work, "objects"), bad)
+                        for b in bad:
+                            rep["bad"].append(f"after {path} ({res}): {b}")
+                        if res == "ok":
+                            for tgt in targets:
+                                tn = obj_name(3, tgt).hex().encode()
+                                try:
+                                    o = st[tn]
+                                    if _independent_id(o) != tn.decode():
+                                        rep["bad"].append(f"after {path}: store[{tn.decode()[:12]}] hashes to {_independent_id(o)[:12]}")
+                                except KeyError:
+                                    rep["bad"].append(f"after {path} (ok): the object the thin pack encodes ({tn.decode()[:12]}) is not in the store: "
+                                                      "its delta was applied to another base")
+                                except Exception:
+                                    pass
+                    finally:
+                        st.close()
+                        shutil.rmtree(work, ignore_errors=True)
+            out.append(rep)
+    finally:
+        with open(tm["path"], "wb") as f:
+            f.write(tm["midx"])
+    return out
+
+
+def _midx_regions(raw: bytes):
+    """chunk id -> (start, end) from the chunk table (independent reading of the format)"""
+    nchunks = raw[6]
+    table = 12
+    ents = []
+    for i in range(nchunks + 1):
+        cid = raw[table + 12 * i: table + 12 * i + 4]
+        off = struct.unpack(">Q", raw[table + 12 * i + 4: table + 12 * i + 12])[0]
+        ents.append((cid, off))
+    reg = {"header": (0, 12), "chunk-table": (12, 12 + 12 * (nchunks + 1)), "trailer": (len(raw) - 20, len(raw))}
+    for (cid, off), (_c2, nxt) in zip(ents, ents[1:]):
+        reg[cid.decode("latin1")] = (off, nxt)
+    return reg
+
+
+def _stream_midx(ctx, w):
+    stream = "midx"
+    rep = w.ask({"mod": MOD, "op": "midx_template", "args": {"scratch": str(ctx.scratch)}}, timeout=60)
+    if "r" not in rep:
+        ctx.oracle_fail(stream, {"step": "template"}, f"two packs + write_midx() failed: {rep}", "midx-template")
+        return
+    raw, names = unhx(rep["r"]["midx"]), rep["r"]["names"]
+    reg = _midx_regions(raw)
+    ctx.extra_cov["midx_regions"] = {k: list(v) for k, v in reg.items()}
+
+    def region_of(pos):
+        for k, (a_, b_) in reg.items():
+            if a_ <= pos < b_:
+                return k
+        return "?"
+    muts = []
+    for pos in range(len(raw)):
+        r = region_of(pos)
+        dense = r in ("header", "chunk-table", "OIDL", "OOFF", "LOFF", "trailer", "PNAM")
+        if not ctx.thorough and not dense and pos % 16 != ctx.seed % 16:
+            continue
+        for bit in range(8):
+            if not ctx.thorough and r in ("OIDL", "PNAM") and bit not in (0, 7) and (pos + bit) % 4:
+                continue
+            m = raw[:pos] + bytes([raw[pos] ^ (1 << bit)]) + raw[pos + 1:]
+            ing = r in ("OOFF", "LOFF") or (ctx.thorough and r in ("OIDL", "chunk-table")) or (pos * 8 + bit) % (16 if ctx.thorough else 64) == 0
+            muts.append((f"{r}:bit", pos, m, ing))
+    for cut in range(0, len(raw), 1 if ctx.thorough else 37):
+        muts.append(("trunc", cut, raw[:cut], cut % 5 == 0))
+    muts.append(("tail", len(raw), raw + b"\0" * 8, True))
+    muts.append(("undamaged", 0, raw, True))
+    CH = 60
+    for s in range(0, len(muts), CH):
+        part = muts[s:s + CH]
+        rp = w.ask({"mod": MOD, "op": "midx_batch", "args": {"scratch": str(ctx.scratch), "mutants": [{"midx": hx(m), "ingest": ing} for _, _, m, ing in part]}},
+                   timeout=120)
+        if "r" not in rp:
+            # isolate
+            for tag, pos, m, ing in part:
+                r1 = w.ask({"mod": MOD, "op": "midx_batch", "args": {"scratch": str(ctx.scratch), "mutants": [{"midx": hx(m), "ingest": ing}]}}, timeout=20)
+                case = {"file": "multi-pack-index", "mutation": tag, "pos": pos, "midx": hx(m)}
+                if not _process_failure(ctx, stream, case, r1, "store-level reads / thin-pack ingestion with a damaged multi-pack-index", "midx"):
+                    _midx_judge(ctx, stream, tag, pos, m, ing, r1["r"][0], names)
+            continue
+        for (tag, pos, m, ing), r in zip(part, rp["r"]):
+            _midx_judge(ctx, stream, tag, pos, m, ing, r, names)
+
+
+def _midx_judge(ctx, stream, tag, pos, m, ing, r, names):
+    case = {"file": "multi-pack-index", "mutation": tag, "pos": pos, "midx": hx(m), "names": names}
+    for b in r["bad"]:
+        cls = "midx-store-returns-misnamed-object" if ("get_raw(" in b or "store[" in b) and "after " not in b else \
+              ("midx-ingest-misnamed-pack-entry" if "not-self-contained" in b or "hashes to" in b else "midx-ingest-delta-applied-to-wrong-base")
+        ctx.oracle_fail(stream, dict(case, detail=b, ingest=r.get("ingest")),
+                        "with a damaged multi-pack-index the store hands out / stores an object under a name it does not hash to: " + b, cls)
+    if tag == "undamaged":
+        if any(x not in ("ok", "in", "iter:all") for x in r["reads"]) or any(v != "ok" for k, v in r.get("ingest", {}).items() if k != "packdata"):
+            ctx.oracle_fail(stream, dict(case, reads=r["reads"], ingest=r.get("ingest")), "the undamaged multi-pack-index does not serve every object", "midx-undamaged-broken")
+    outcome = "all-ok" if all(x in ("ok", "in", "iter:all") for x in r["reads"]) else "some-error-or-miss"
+    ctx.count(stream, (tag, pos, m), True, f"{tag}:{outcome}{':ingest=' + ','.join(sorted(set(r['ingest'].values()))) if r.get('ingest') else ''}")
+
+
+# ------------------------------------------------------------------------------------------------
 # input-size cap (receive.maxInputSize / add_thin_pack(max_input_size=N)) against peers that never stop sending
 
 CAP = 256 * 1024
@@ -2802,6 +3030,9 @@ def run(ctx: core.Ctx):
         # 7b. long-lived readers: state left behind by a FAILED read (packed-refs cache), then reads and rewrites through it
         with timed("refs-stateful"):
             _stream_refs_stateful(ctx, w)
+        # 7c. damaged multi-pack-index through the store-level read paths and thin-pack delta resolution
+        with timed("midx"):
+            _stream_midx(ctx, w)
         # 8. peers that never stop sending vs the input cap (separate read_all / read_some; real receive-pack handler)
         with timed("input-cap"):
             _stream_capped(ctx, w)
